@@ -516,6 +516,11 @@ var selfReadable = map[string][]string{
 
 func selfReadableCols(r *rng, depth int) []colDesc {
 	names := []string{"a", "b", "c", "d", "e", "zz", "aa"}
+	if r.chance(1, 5) {
+		// names a writer must escape the JSON way for the line to be read back: DEL, a non-printable astral code point,
+		// a control character, characters HTML-escaping touches
+		names[r.intn(3)] = pick(r, []string{"k\x7f", "\U000e0001z", "a\x07b", "<&>", "q\"\\"})
+	}
 	n := 1 + r.intn(5)
 	var cols []colDesc
 	for i := 0; i < n; i++ {
@@ -525,7 +530,7 @@ func selfReadableCols(r *rng, depth int) []colDesc {
 	return cols
 }
 
-var c05Values = []string{`null`, `true`, `false`, `0`, `1`, `-1`, `12`, `1.5`, `255`, `-129`, `65536`, `1e2`, `1632518460`, `253402214400`, `0.10`, `9223372036854775807`,
+var c05Values = []string{`null`, `true`, `false`, `0`, `-0`, `-0.0`, `"-0.0"`, `-0e0`, `"-0"`, `-1e-400`, `1`, `-1`, `12`, `1.5`, `255`, `-129`, `65536`, `1e2`, `1632518460`, `253402214400`, `0.10`, `9223372036854775807`,
 	`""`, `"a"`, `"12"`, `"-1"`, `"1.5"`, `"true"`, `"2021-09-24"`, `"2021-09-24T21:21:00Z"`, `"2021-09-24T21:21:00+02:00"`, `"2021-09-24T21:21:00.5-03:30"`, `"2021-09-24T01:30:00+24:60"`, `"1632518460"`,
 	`"AQ=="`, `"AQAAAA=="`, `"AQAAAAAAAAA="`, `"aGVsbG8="`, `"aGVsbG9="`, `"MTI="`, `"é😀"`, `"\n\"\\"`, `[]`, `[1,{"q":1,"b":2}]`, `{"q":1,"b":2}`}
 
